@@ -93,7 +93,7 @@ def run_harness(n, seed, tag, corpus=True):
 
 C01_ORACLES = ("double ownership", "not at a slot boundary", "advertised capacity", "payload of a held buffer",
                "header of a held buffer", "panicked", "panic while", "capacity of its slot", "smaller than requested", "panic in a manager")
-C02_ORACLES = ("free count plus buffers held", "at quiescence", "did not finish")
+C02_ORACLES = ("free count plus buffers held", "at quiescence", "did not finish", "recycling a message chain")
 
 
 def classify(msg):
